@@ -7,6 +7,8 @@ observation; TLC validates the recorded trace against Trace_OverlayDb (the refer
 oracle).  Seeded random long sequences over 12 keys are validated the same way.
 Part B (chain level: canonical state untouched by speculative work, historical views exact) lives in
 the chain driver (see c13_chain in chainlib) and is merged into the same verdict when available.
+Part C (the layer in between: StateDB / IdentityStateDB / AppState views and their in-memory buffers) is
+tools/props/c13_views.py (spec/StateViews.tla, d_stateviews), merged into the same verdict.
 """
 import json
 import os
@@ -86,6 +88,10 @@ def main(ctx):
     # 5. chain level (part B): canonical state untouched by speculative work, read-only / historical views exact
     chain_cov = chain_part(ctx, quick)
 
+    # 6. state-object level (part C): views of StateDB / IdentityStateDB / AppState share no in-memory buffer
+    from props import c13_views
+    views_cov = c13_views.run(ctx, quick)
+
     samples = [r.exports[0], r.exports[len(r.exports) // 2], r.exports[-1]]
     cov = {
         "states": r.distinct, "transitions": r.generated,
@@ -95,6 +101,7 @@ def main(ctx):
         "exhaustive": True,
         "model_cfg": cfg,
         "chain_level": chain_cov,
+        "state_views": views_cov,
         "rule": "every transition of the bounded OverlayDb model (all base contents x set/delete/batch) replayed on the "
                 "real BackedMemDb with a complete observation (Get/Has for every key, forward+reverse iteration over "
                 "every border pair); plus %d seeded random sequences of %d ops over 12 keys" % (nrand, rlen),
@@ -102,7 +109,7 @@ def main(ctx):
     return vlib.finish(ctx, "model_checking", cov, assumptions=[
         "tm-db MemDB is the reference semantics of an ordinary store",
         "iteration is atomic (no writes while an iterator is open), as in the IAVL callers",
-    ])
+    ] + c13_views.ASSUMPTIONS)
 
 
 CHAIN_CLAUSES = {"CanonUntouched", "HistoricalExact", "ReadonlyHeadExact"}
